@@ -241,9 +241,14 @@ pub fn explore<const N: usize>(ctx: &Ctx, t: &Target, chunks: &[Vec<u8>], c09: b
                                 ctx.violation("acc-no-progress", "call consumed nothing and left the state unchanged: the documented loop would spin".into(), order, case(Value::Null));
                             }
                         }
-                        succ.push((nk, k, ci as u32));
+                        // keep only states not known before this level (parents is read-only here)
+                        if !parents.contains_key(&nk) {
+                            succ.push((nk, k, ci as u32));
+                        }
                     }
                 });
+                succ.sort();
+                succ.dedup_by_key(|x| x.0);
                 succ
             })
             .collect();
@@ -488,6 +493,8 @@ mod sr {
     pub struct AccModel<const N: usize> {
         pub target: Target,
         pub chunks: Vec<Vec<u8>>,
+        /// false = C08's graph: transitions on which the step model reports an overflow are not taken
+        pub c09: bool,
     }
     impl<const N: usize> Model for AccModel<N> {
         type State = u128;
@@ -502,6 +509,11 @@ mod sr {
         }
         fn next_state(&self, s: &u128, a: u32) -> Option<u128> {
             let (buf, idx) = state_of::<N>(*s);
+            if !self.c09 && idx <= N {
+                if let (AccOut::OverFull(_), _) = acc_step(N, &buf[..idx], &self.chunks[a as usize]) {
+                    return None;
+                }
+            }
             let mut acc = CobsAccumulator::<N>::verif_from_state(buf, idx);
             let shape = self.target.shape();
             with_shape(&shape, || {
@@ -514,8 +526,8 @@ mod sr {
             vec![Property::always("idx within capacity", |_, s: &u128| state_of::<N>(*s).1 <= N)]
         }
     }
-    pub fn unique_states<const N: usize>(target: &Target, chunks: &[Vec<u8>]) -> (u64, bool) {
-        let m = AccModel::<N> { target: target.clone(), chunks: chunks.to_vec() };
+    pub fn unique_states<const N: usize>(target: &Target, chunks: &[Vec<u8>], c09: bool) -> (u64, bool) {
+        let m = AccModel::<N> { target: target.clone(), chunks: chunks.to_vec(), c09 };
         let c = m.checker().threads(8).spawn_bfs().join();
         (c.unique_state_count() as u64, c.discoveries().is_empty())
     }
@@ -578,7 +590,7 @@ pub fn run(ctx: &Ctx, c09: bool) {
                     "histories_replayed_on_fresh_accumulator": g.replayed_histories,
                     "trace_streams": tr.streams, "trace_streams_checked": tr.fitting_streams, "trace_histories": tr.histories, "trace_results": tr.results, "max_loop_iterations": tr.max_iters});
                 if !ctx.quick() && $n <= 5 {
-                    let (u, ok) = sr::unique_states::<$n>(&t, &chunks);
+                    let (u, ok) = sr::unique_states::<$n>(&t, &chunks, c09);
                     part["stateright_unique_states"] = json!(u);
                     if u != g.states || !ok {
                         ctx.machinery(format!("explorer disagreement: own BFS {} states, stateright {} (N={}, {})", g.states, u, $n, t.name()));
